@@ -166,6 +166,7 @@ func (k Keeper) AddDeposit(ctx sdk.Context, receiverAddr, senderAddr sdk.AccAddr
 	// should be added to the current deposit zero time if the stream has not expired, or from
 	// "now" if it has.
 	var depositZeroTime time.Time
+	zeroTimeOk := true
 
 	if stream.DepositZeroTime.Before(nowTime) || stream.DepositZeroTime.Equal(nowTime) {
 		// In the case of expired, ClaimFromStream is called first to "reset" deposit to zero and forward
@@ -187,10 +188,10 @@ func (k Keeper) AddDeposit(ctx sdk.Context, receiverAddr, senderAddr sdk.AccAddr
 		}
 
 		// stream expired or new. Calculate from now
-		depositZeroTime = nowTime.Add(time.Second * time.Duration(durationExtension))
+		depositZeroTime, zeroTimeOk = types.AddSecondsToTime(nowTime, durationExtension)
 	} else {
 		// stream not expired. Add to current deposit zero time
-		depositZeroTime = stream.DepositZeroTime.Add(time.Second * time.Duration(durationExtension))
+		depositZeroTime, zeroTimeOk = types.AddSecondsToTime(stream.DepositZeroTime, durationExtension)
 	}
 
 	// Send topUpDeposit from user acc to module acc
@@ -198,6 +199,12 @@ func (k Keeper) AddDeposit(ctx sdk.Context, receiverAddr, senderAddr sdk.AccAddr
 
 	if err != nil {
 		return false, err
+	}
+
+	// the new deposit zero time must be representable (checked after the transfer so that an
+	// unaffordable top-up is still reported as such)
+	if !zeroTimeOk {
+		return false, sdkerrors.Wrap(types.ErrInvalidData, "deposit zero time out of range")
 	}
 
 	// set and save new stream data
@@ -260,7 +267,11 @@ func (k Keeper) SetNewFlowRate(ctx sdk.Context, receiverAddr, senderAddr sdk.Acc
 		// above. We're effectively creating a "new" stream, based on existing deposit value
 		// and the new flow rate
 		duration = types.CalculateDuration(stream.Deposit, newFlowRate)
-		depositZeroTime = nowTime.Add(time.Second * time.Duration(duration))
+		var zeroTimeOk bool
+		depositZeroTime, zeroTimeOk = types.AddSecondsToTime(nowTime, duration)
+		if !zeroTimeOk {
+			return sdkerrors.Wrap(types.ErrInvalidData, "deposit zero time out of range")
+		}
 	}
 
 	// save new stream data
